@@ -36,5 +36,19 @@ m = {
     "notes": base["notes"],
     "not_applicable": na,
 }
-json.dump(m, open(os.path.join(V, "MANIFEST.json"), "w"), indent=1)
+for e in m["engines"]:
+    e["serves_properties"] = sorted(claimed)
+tmp = os.path.join(V, "MANIFEST.json.tmp")
+json.dump(m, open(tmp, "w"), indent=1)
+os.replace(tmp, os.path.join(V, "MANIFEST.json"))
+# merge the per-property findings fragments into the committed ledger
+kf_path = os.path.join(V, "known_findings.json")
+kf = json.load(open(kf_path))
+merged = []
+for f in sorted(glob.glob(os.path.join(V, "known_findings.d", "*.json"))):
+    merged += json.load(open(f)).get("findings", [])
+kf["findings"] = merged
+tmp = kf_path + ".tmp"
+json.dump(kf, open(tmp, "w"), indent=1)
+os.replace(tmp, kf_path)
 print("claimed:", sorted(claimed), "not claimed:", [x["property_id"] for x in na])
